@@ -120,7 +120,11 @@ def gen_file(rng, pn=""):
         hdr += "//go:build linux\n\n"
     if rng.random() < 0.5:
         hdr += "// Package p is documented.\n"
-    hdr += "package p" + (" // pkg-trailing" if rng.random() < 0.3 or first_special else "") + "\n"
+    pkg_trailing = rng.random() < 0.3 or first_special
+    hdr += "package p" + (" // pkg-trailing" if pkg_trailing else "") + "\n"
+    if pkg_trailing and rng.random() < 0.4:
+        # the comment on the package clause's line goes on over further lines
+        hdr += "// pkg-more one\n// pkg-more two\n"
     parts.append(hdr)
     if "import-delete-middle" in pns:
         parts.append("import \"fmt\" // fmt-trailing\n\n// about os\nimport \"os\"\n\n// doc strings\nimport \"strings\" // strings-trailing\n\nvar _ = fmt.Sprint(strings.ToUpper(\"x\"))\n")
@@ -164,6 +168,10 @@ def gen_file(rng, pn=""):
             d += rng.choice([" // var-eol %d" % i, " // var-eol %d" % i, " //nolint:unused%d" % i, "", ""])
         if rng.random() < 0.25 and "var v%d =" % i not in d:
             d += " // trailing %d" % i
+        elif rng.random() < 0.12 and "var v%d =" % i not in d:
+            d += "/* tight-after %d */" % i        # no byte between the declaration and the comment
+        if rng.random() < 0.1 and not (first_special and i == 0) and (d.startswith(("func ", "type ", "var ", "const "))):
+            d = "/* tight-before %d */" % i + d     # ... nor between the comment and the declaration
         parts.append(d + "\n")
     if rng.random() < 0.3:
         parts.append("// free-at-end\n")
